@@ -91,10 +91,16 @@ def decVal? (c : Char) : Option Nat :=
   else if c = '4' then some 4 else if c = '5' then some 5 else if c = '6' then some 6 else if c = '7' then some 7
   else if c = '8' then some 8 else if c = '9' then some 9 else none
 
+def parseNatAux : Nat → Str → Option Nat
+  | acc, [] => some acc
+  | acc, c :: t =>
+    match decVal? c with
+    | none => none
+    | some d => parseNatAux (10 * acc + d) t
+
 /-- `int(<digits>)`; `none` for the empty string or a non-digit. -/
 def parseNat? (s : Str) : Option Nat :=
-  if s = [] then none else
-  s.foldlM (fun acc c => (decVal? c).map fun d => 10 * acc + d) 0
+  if s = [] then none else parseNatAux 0 s
 
 /-! ## `Bits.__str__` -/
 
@@ -572,6 +578,11 @@ def trailingLen (len bpg : Nat) (hasLen : Bool) : Nat :=
     lsb0: the other way round). -/
 def dataPart (lsb0 : Bool) (l : Bits) (t : Nat) : Bits := sliceAB lsb0 l 0 (l.length - t)
 def trailingPart (lsb0 : Bool) (l : Bits) (t : Nat) : Bits := sliceAB lsb0 l (l.length - t) l.length
+
+/-- SPEC: the bits pp prints as digits and the bits it reports as trailing, for `t` trailing bits:
+    msb0 `data ++ trailing = l`, lsb0 `trailing ++ data = l`. -/
+def ppData (lsb0 : Bool) (l : Bits) (t : Nat) : Bits := if lsb0 then l.drop t else l.take (l.length - t)
+def ppTrailing (lsb0 : Bool) (l : Bits) (t : Nat) : Bits := if lsb0 then l.take t else l.drop (l.length - t)
 
 def cfgOf (a : PPArgs) (bpg : Nat) : PPCfg :=
   ⟨a.t1.fmt, a.t2.map (·.fmt), bpg, a.width, a.sep, a.showOffset, a.lsb0, a.colour⟩
